@@ -12,7 +12,10 @@ Open Scope R_scope.
 Ltac open_tr := intros; destruct_tuples; autounfold with smgen smlin in *; unfold trinv_ref in *; autounfold with smlin in *; sm_simpl.
 Ltac same_tr := open_tr; tuple_eq ltac:(ring).
 
-(* ---------- what the traced operators are ---------- *)
+(* ---------- what the traced operators are (polynomial identities, ring) ----------
+   Closure is derived from these identities and the closure lemmas of Base/RLin.v.  Consequence: a change that makes an
+   operator return a DIFFERENT group element (e.g. inv without the transpose) breaks these lemmas although the result may
+   still be a member; the check then reports the broken lemma with "no-failing-input-found" (the law itself is C02's). *)
 Lemma C01_SO3_ops_are : forall X Y : M33 R,
   tr_SO3_mul Rops X Y = mmul33 Rops X Y /\ tr_SO3_inv Rops X = mtr33 X /\ tr_SO3_div Rops X Y = mmul33 Rops X (mtr33 Y).
 Proof. intros; repeat split; same_tr. Qed.
@@ -22,12 +25,8 @@ Proof. intros; repeat split; same_tr. Qed.
 (* X / Y is computed as X @ Y.inv(); on homogeneous operands this is the matrix product with the structured inverse *)
 Lemma C01_SE3_div_is : forall X Y : M44 R, lastrow4 X = (0,0,0,1) -> tr_SE3_div Rops X Y = mmul44 Rops X (trinv_ref Y).
 Proof. intros X Y H. destruct_tuples. unfold lastrow4 in H. injection H; intros; subst. same_tr. Qed.
-Lemma C01_SO2_SE2_mul_are : forall (X Y : M22 R) (A B : M33 R),
-  tr_SO2_mul Rops X Y = mmul22 Rops X Y /\
-  tr_SE2_mul Rops A B = ((dot3 Rops (fst (fst A)) (col33 B 0), dot3 Rops (fst (fst A)) (col33 B 1), dot3 Rops (fst (fst A)) (col33 B 2)),
-                         (dot3 Rops (snd (fst A)) (col33 B 0), dot3 Rops (snd (fst A)) (col33 B 1), dot3 Rops (snd (fst A)) (col33 B 2)),
-                         (dot3 Rops (snd A) (col33 B 0), dot3 Rops (snd A) (col33 B 1), dot3 Rops (snd A) (col33 B 2))).
-Proof. intros; split; same_tr. Qed.
+Lemma C01_SO2_mul_is : forall X Y : M22 R, tr_SO2_mul Rops X Y = mmul22 Rops X Y.
+Proof. same_tr. Qed.
 
 (* ---------- closure of each operator ---------- *)
 Lemma C01_SO3_closed : forall X Y, SO3 X -> SO3 Y ->
@@ -44,7 +43,8 @@ Proof.
   repeat split; try apply SE3_mul; try apply SE3_inv; assumption.
 Qed.
 Lemma C01_SO2_closed : forall X Y, SO2 X -> SO2 Y -> SO2 (tr_SO2_mul Rops X Y).
-Proof. intros X Y HX HY. destruct (C01_SO2_SE2_mul_are X Y (I33 Rops) (I33 Rops)) as (-> & _). apply SO2_mul; assumption. Qed.
+Proof. intros X Y HX HY. rewrite C01_SO2_mul_is. apply SO2_mul; assumption. Qed.
+(* 2-D rigid motions: directly on the traces (small polynomials) *)
 Lemma C01_SE2_closed : forall A B, SE2 A -> SE2 B -> SE2 (tr_SE2_mul Rops A B) /\ SE2 (tr_trinv2 Rops A).
 Proof.
   intros A B [HA LA] [HB LB]. destruct_tuples. unfold SE2, t2r2, lastrow3 in *. injection LA; injection LB; intros; subst.
